@@ -395,6 +395,20 @@ def go_string_escapes(text):
             i += 1
     return bad
 
+def swift_member_names(text):
+    """Swift: the name after a `.` (implicit member `case .a:`, `self = .a(content)`, `CodingKeys.a`, `forKey: .key`) is an identifier or a
+    back-ticked one - never a digit run followed by letters (`.2FaCode`: the lexer reads `.2` as a number and the rest as a second token).
+    Strings and comments are blanked first. (seeded C10_h: the `_` put in front of a digit-initial variant name was kept at the
+    declaration but lost in the switch bodies of init(from:) / encode(to:), which the declaration grammar reads as balanced token runs)"""
+    t = re.sub(r'"(?:\\.|[^"\\\n])*"', '""', text)
+    t = re.sub(r'/\*.*?\*/', ' ', t, flags=re.S)
+    t = re.sub(r'//[^\n]*', '', t)
+    out = []
+    for m in re.finditer(r'(?<![0-9])\.([0-9]+[A-Za-z_][A-Za-z0-9_]*)', t):
+        out.append(f'member name `.{m.group(1)}` starts with a digit')
+    return out
+
+
 def observe(lang, text):
     """declaring positions + template conformance from the REAL text"""
     o = extract.extract(lang, text)
@@ -432,6 +446,11 @@ def observe(lang, text):
         if hg:
             fails.append('head-grammar')
             why = hg[:3] + why
+    if lang == 'swift':
+        sm = swift_member_names(text)
+        if sm:
+            fails.append('identifier')
+            why = sm[:3] + why
     if lang == 'go':
         ge = go_string_escapes(text)
         if ge:
@@ -698,6 +717,8 @@ WITNESSES = [
     ('scala', {'package': 'com.x'}, '#[typeshare]\n#[serde(tag = "t", content = "my-content")]\npub enum E { A(String), B { x: u8 } }\n', 'C10-scala-content-key'),
     ('scala', {'package': 'com.x'}, '#[typeshare]\npub struct A { #[serde(default)] pub x: String }\n', 'C10-scala-default'),
     ('swift', {}, '#[typeshare]\npub struct A { pub r#let: String, pub inout: u8 }\n', 'C10-swift-label'),
+    # digit-initial variant names get `_` in front - at the declaration, in CodingKeys and in every switch arm alike (seeded C10_h)
+    ('swift', {}, '#[typeshare]\n#[serde(tag = "t", content = "c")]\npub enum E { _2FaCode(String), _3rdParty { x: u8 }, _4Unit, Plain(u8) }\n', None),
     ('python', {}, '#[typeshare]\npub type A<T> = Vec<T>;\n', None),
     ('python', {}, '#[typeshare]\npub type A<T> = Vec<T>;\n#[typeshare]\npub type B<K> = HashMap<String, Vec<K>>;\n#[typeshare]\npub struct S<T> { pub a: A<T>, pub b: B<u8> }\n'
                    '#[typeshare]\npub type C = A<u8>;\n', None),
